@@ -87,6 +87,7 @@ type checkOpts struct {
 	seed     int
 	quiet    bool
 	noReplay bool
+	only     string
 }
 
 type groupReport struct {
@@ -113,8 +114,12 @@ func cmdCheck(args []string) int {
 	quiet := fl.Bool("q", false, "quiet")
 	noReplay := fl.Bool("noreplay", false, "do not run replays")
 	noEvidence := fl.Bool("noevidence", false, "do not write the evidence file")
+	only := fl.String("only", "", "debugging: restrict to functions whose name contains this (implies -noevidence)")
 	fl.Parse(args[1:])
-	o := checkOpts{repo: *repo, tier: *tier, quiet: *quiet, noReplay: *noReplay}
+	o := checkOpts{repo: *repo, tier: *tier, quiet: *quiet, noReplay: *noReplay, only: *only}
+	if *only != "" {
+		*noEvidence = true
+	}
 	if o.tier == "" {
 		o.tier = os.Getenv("VERIF_TIER")
 	}
@@ -190,11 +195,35 @@ func runCheck(prop string, o checkOpts) *checkResult {
 		return res
 	}
 	fns := funcsFor(P, prop)
+	if o.only != "" {
+		var keep []*ssa.Function
+		for _, f := range fns {
+			if strings.Contains(shortFn(f.String()), o.only) {
+				keep = append(keep, f)
+			}
+		}
+		fns = keep
+	}
+	if o.tier != "thorough" {
+		var keep []*ssa.Function
+		var skipped []string
+		for _, f := range fns {
+			if ct := P.contracts.lookup(P, f); ct != nil && ct.Thorough {
+				skipped = append(skipped, shortFn(f.String()))
+				continue
+			}
+			keep = append(keep, f)
+		}
+		fns = keep
+		if len(skipped) > 0 {
+			res.extra["thorough_tier_only"] = skipped
+		}
+	}
 	if extra := extraChecks[prop]; extra != nil {
 		// property-specific structural checks (registry, frames, census)
 		extra(P, res, o)
 	}
-	if len(fns) == 0 && len(res.groups) == 0 {
+	if len(fns) == 0 && len(res.groups) == 0 && (o.only == "" || len(standins[prop]) == 0) {
 		res.broken = "no functions under contract for " + prop
 		fmt.Println("kvc:", res.broken)
 		return res
@@ -271,6 +300,7 @@ func runCheck(prop string, o checkOpts) *checkResult {
 			fmt.Printf("  obligation %s (%s) at %s: %s\n", g.name, g.status(), g.pos, firstFailing(g).Goal)
 		}
 	}
+	runStandins(prop, o, res)
 	res.wall = time.Since(t0).Seconds()
 	if os.Getenv("KVC_TIMES") != "" {
 		for _, r := range results {
